@@ -9,7 +9,7 @@ import (
 
 func init() {
 	register(&propDef{ID: "C06", Run: runC06,
-		Explain:    "Structural necessary conditions of 'one fresh top Via, Record-Route by policy', decided on SSA/CFG/value flow of /repo: (1) insert-once: on the backend path addVia and addRecordRoute execute exactly once each on every path reaching backend.Send, before it, on the handled message and with one and the same transport value; on the routed path both are guarded by the ok of selfLearnRoute.GetRoute(dispatch host), take that lookup's transport, execute exactly once before sendMessage when learned and are unreachable otherwise; no other call sites exist; (2) via-content: CreateViaParam(transport.GetProtocol(), GetAddress(), GetPort()) of that transport with SIP/2.0 constants, SetBranch with result 0 of CreateBranch(), whose success value is the literal z9hG4bK followed by text derived from uuid.NewRandom(); one AddViaParam, one msg.AddVia of that Via, nothing inserted when the branch cannot be created; (3) via-position: AddVia is insert-one of a header named Via at findViaInsertPos(), which returns the index of the first header the comparator matches with Via, else 0; (4) rr-policy: AddRecordRoute is reached exactly when the message already has a Record-Route (by comparator lookup) or mustRecordRoute is set; mustRecordRoute's only root is the YAML option must-record-route; (5) rr-content: scheme sip, host/port from the same transport, parameter lr without value, empty display name, one AddRecRoute, insert-one of a header named Record-Route at the first Record-Route position; (6) learning: for requests not coming from a backend address the source address and the host of every Via entry of every Via header line are learned for the receiving transport. The table of learnt routes (learn-table) is created once per startProxy call, outside its loop over the listens.",
+		Explain:    "Structural necessary conditions of 'one fresh top Via, Record-Route by policy', decided on SSA/CFG/value flow of /repo: (1) insert-once: on the backend path addVia and addRecordRoute execute exactly once each on every path reaching backend.Send, before it, on the handled message and with one and the same transport value; on the routed path both are guarded by the ok of selfLearnRoute.GetRoute(dispatch host), take that lookup's transport, execute exactly once before sendMessage when learned and are unreachable otherwise; no other call sites exist; (2) via-content: CreateViaParam(transport.GetProtocol(), GetAddress(), GetPort()) of that transport with SIP/2.0 constants, SetBranch with result 0 of CreateBranch(), whose success value is the literal z9hG4bK followed by text derived from uuid.NewRandom(); one AddViaParam, one msg.AddVia of that Via, nothing inserted when the branch cannot be created; (3) via-position: AddVia is insert-one of a header named Via at findViaInsertPos(), which returns the index of the first header the comparator matches with Via, else 0; (4) rr-policy: AddRecordRoute is reached exactly when the message already has a Record-Route (by comparator lookup) or mustRecordRoute is set; mustRecordRoute's only root is the YAML option must-record-route; (5) rr-content: scheme sip, host/port from the same transport, parameter lr without value, empty display name, one AddRecRoute, insert-one of a header named Record-Route at the first Record-Route position; (6) learning: for requests not coming from a backend address the source address and the host of every Via entry of every Via header line are learned for the receiving transport. The table of learnt routes (learn-table) is created once per startProxy call, outside its loop over the listens. comparator-internals (shared with C17): 'on top' is relative to the Via lines the header comparator recognises, so isSameHeader must answer true on every case spelling of the long and compact name.",
 		NotDecided: "branch freshness as a probability statement; addVia's ignored error (uuid failure relays without Via)."})
 }
 
@@ -17,6 +17,10 @@ func runC06(c *Ctx) {
 	c06InsertOnce(c)
 	c06ViaContent(c)
 	c06Position(c)
+	// "on top" is relative to the Via lines that are found: findViaInsertPos and the Via walk recognise them through
+	// isSameHeader only, so a comparator that misses one spelling ("V:") puts the new entry beneath that line
+	// (rule shared with C17; seeded change C06-r11m1)
+	c17Internals(c)
 	c06RRPolicy(c)
 	c06RRContent(c)
 	c06Learning(c)
